@@ -682,7 +682,7 @@ def fixed_case(kind, seed=20260928):
 
 def tr_dict(R, t, s, k): return dict(R=R, t=list(t), s=s, k=k)
 
-def run_pairs(ck, hb, items, tol=1e-9, stats=None, what=""):
+def run_pairs(ck, hb, items, tol=1e-9, stats=None, what="", inplace="first"):
     """items: [(label, case, [ (R,t,s,k), ... ])].  Runs the reference and every transformed copy, applies the laws,
     reports violations (with bisection and a replay holding the whole case).  Returns per-pair records."""
     lines = []; index = []
@@ -691,6 +691,11 @@ def run_pairs(ck, hb, items, tol=1e-9, stats=None, what=""):
         for q, (R, t, s, k) in enumerate(trs):
             mv = transform_case(case, R, t, s, k)
             d = write_case(mv, os.path.join(ck.workdir, "m%d_t%d" % (n, q))); lines.append("gains %s %s" % (d, what)); index.append((n, q))
+            if inplace and k == 1.0 and (inplace == "all" or q == 0):
+                # the same transformed problem through the API: vertices of the loaded reference geometry moved in place
+                Rm = R or IDENT
+                lines.append("inplace %s %s %s %s" % (d0, d, what or "all", " ".join(float(x).hex() for x in [c_ for row in Rm for c_ in row] + list(t) + [s])))
+                index.append((n, ("inplace", q)))
     res = run_lines(hb, ck.workdir, lines, tag="pairs")
     stats = stats if stats is not None else {}
     recs = []; ref = None
@@ -698,12 +703,15 @@ def run_pairs(ck, hb, items, tol=1e-9, stats=None, what=""):
         label, case, trs = items[n]
         if q is None:
             ref = r; continue
+        via_api = isinstance(q, tuple)
+        if via_api:
+            q = q[1]; label = label + " [moved in place + Mesh::update(false)]"; stats["inplace_pairs"] = stats.get("inplace_pairs", 0) + 1
         R, t, s, k = trs[q]
         rec = dict(label=label, s=s, k=k, topology=case["model"]["info"].get("topology"), levels={}, singular=False, fails=[],
                    flipped=case["model"]["info"].get("flipped_mesh"))
         recs.append(rec)
         stats["pairs"] = stats.get("pairs", 0) + 1
-        replay = dict(kind="pair", label=label, case=case_to_json(case), transform=tr_dict(R, t, s, k), tol=tol, what=what,
+        replay = dict(kind="pair", label=label, case=case_to_json(case), transform=tr_dict(R, t, s, k), tol=tol, what=what, via_api=via_api,
                       replay_cmd="./check %s --replay <this file>" % ck.prop)
         if "crash" in ref or "crash" in r or "geometry" in ref or "geometry" in r:
             st0 = "crash" if "crash" in ref else ("geometry-error" if "geometry" in ref else "ok")
@@ -715,6 +723,9 @@ def run_pairs(ck, hb, items, tol=1e-9, stats=None, what=""):
         c0 = cond_of(ref); c1 = cond_of(r)
         rec["cond"] = c0
         dfails = compare_decisions(ref, r, s)
+        if via_api:
+            # the bookkeeping (numbering, barriers, nesting) of the loaded object is kept by construction: only selfCheck can differ
+            dfails = [f for f in dfails if not (f[0] == "dec_geom" and f[1] == "status")]
         ties = [f for f in dfails if f[0] == "dec_nearest" and f[1] == "decision" and _is_tie(f[2])]
         dfails = [f for f in dfails if f not in ties]
         stats["nearest_ties"] = stats.get("nearest_ties", 0) + len(ties)
@@ -762,6 +773,7 @@ def run_pairs(ck, hb, items, tol=1e-9, stats=None, what=""):
             outcome = [f for f in fails if f[1] != "value"]
             ck.violation("%s: gains off the law (%s)" % (label, kinds),
                          ("OUTCOME differs between the frames (one throws / drops rows where the other returns): %s. " % "; ".join("%s %s" % (f[0], f[2]) for f in outcome[:4]) if outcome else "") +
+                         ("The transformed problem was produced through the API (vertices of the loaded Geometry moved in place, Mesh::update(false)), not through files. " if via_api else "") +
                          "gain(s) %s of the transformed problem (s=%g, k=%g, rotation+translation %s) deviate from s^a k^b * reference: %s%s" %
                          (kinds, s, k, "yes" if R else "no", "; ".join("%s %s" % (f[0], f[2]) for f in fails[:6]), where), replay)
     return recs
